@@ -9,6 +9,9 @@ STATIC_THEOREMS = [
     'SnapraidVerif.Props.C14.empty_rule',
     'SnapraidVerif.Props.C14.force_empty_proceeds',
     'SnapraidVerif.Props.C14.all_missing_refused',
+    'SnapraidVerif.Props.C14.lock_exclusive',
+    'SnapraidVerif.Props.C14.second_is_refused',
+    'SnapraidVerif.Props.C14.lock_counter_unlink',
 ]
 
 def protected_digest(a):
